@@ -35,6 +35,9 @@ pub struct SeqScenario {
     /// Build the pool with (one hour) wait/create/recycle timeouts and the
     /// tokio runtime: the timeout wrappers are on every path but never fire.
     pub timeouts: bool,
+    /// Breadth-first mode: an execution ends after the first step past its
+    /// replay prefix and reports the state it reached (explorer::bfs_visit).
+    pub bfs: bool,
 }
 
 impl SeqScenario {
@@ -58,6 +61,7 @@ impl SeqScenario {
             prefill: 0,
             reach: None,
             timeouts: false,
+            bfs: false,
         }
     }
 
@@ -67,6 +71,15 @@ impl SeqScenario {
         self.cfg.free_faults = true;
         self.depth = horizon;
         self.reach = Some(Default::default());
+        self
+    }
+
+    /// Breadth-first reachability to closure (see `explorer::explore_bfs`).
+    pub fn breadth_first(mut self) -> Self {
+        self.cfg.free_faults = true;
+        self.depth = usize::MAX;
+        self.reach = None;
+        self.bfs = true;
         self
     }
 }
@@ -214,12 +227,19 @@ fn canon(pool: &Pool<Mgr>, tasks: &[STask], closes: usize) -> u64 {
         0xA4u8.hash(&mut h);
         for t in tasks {
             let g = &w.gets[t.gi];
-            (g.nonblocking, g.in_env, t.task.woken(), g.tried.len(), g.env_errs.len(), g.started_after_close, g.epoch_at_start == w.resize_epoch, g.resize_in_progress_at_start).hash(&mut h);
+            // how many objects the call has already tried / which errors it has
+            // already absorbed does not influence anything that happens later
+            (g.nonblocking, g.in_env, t.task.woken(), g.started_after_close, g.epoch_at_start == w.resize_epoch, g.resize_in_progress_at_start).hash(&mut h);
         }
         (w.creating, w.limit, w.limit_alt, w.close_begun, w.close_returned, w.resizes_begun > 0, w.resizes_begun == w.resize_epoch, w.abandoned > 0, w.abandon_mark, w.overlap).hash(&mut h);
     });
     let gates: Vec<String> = sched::pending_gates().into_iter().map(|g| g.1).collect();
     gates.hash(&mut h);
+    if std::env::var_os("DPMC_DEBUG_CANON").is_some() {
+        w(|w| {
+            eprintln!("CANON snap={:?} idle={:?} objs={:?} tasks={:?} flags={:?} gates={:?}", pool.verif_snapshot(), w.ref_idle, w.objs.iter().enumerate().filter(|(_, o)| o.alive).map(|(i, o)| (i, o.loc, o.in_flight, o.rejected, o.detach, o.handouts > 0, o.steps.clone())).collect::<Vec<_>>(), tasks.iter().map(|t| { let g = &w.gets[t.gi]; (g.nonblocking, g.in_env, t.task.woken(), g.tried.len(), g.env_errs.len()) }).collect::<Vec<_>>(), (w.creating, w.limit, w.abandoned > 0, w.abandon_mark), gates);
+        });
+    }
     closes.min(2).hash(&mut h);
     h.finish()
 }
@@ -349,7 +369,7 @@ pub fn run_seq(sc: &SeqScenario) -> Outcome {
         }
         if sc.cancel {
             for t in tasks.iter() {
-                ops.push((SOp::Cancel(t.who), if sc.reach.is_some() { Cost::FREE } else { Cost::F }));
+                ops.push((SOp::Cancel(t.who), if sc.reach.is_some() || sc.bfs { Cost::FREE } else { Cost::F }));
             }
         }
         if sc.stop_anywhere || ops.is_empty() {
@@ -359,6 +379,8 @@ pub fn run_seq(sc: &SeqScenario) -> Outcome {
             // only cancellations possible: stopping is the default
             ops.insert(0, (SOp::Stop, Cost::FREE));
         }
+        // in breadth-first mode this is the one step after the replayed prefix
+        let fresh_step = sc.bfs && explorer::past_root();
         let costs: Vec<Cost> = ops.iter().map(|o| o.1).collect();
         let k = choose(&costs);
         let op = ops[k].0.clone();
@@ -450,6 +472,14 @@ pub fn run_seq(sc: &SeqScenario) -> Outcome {
         if w(|w| w.viol.is_empty()) {
             after_step(&pool, &tasks);
             note_state(fingerprint(&pool, &tasks));
+        }
+        if fresh_step {
+            // one step past the frontier state: report the state reached and end
+            if w(|w| w.viol.is_empty()) {
+                let _new = explorer::bfs_visit(canon(&pool, &tasks, closes));
+                pruned = true;
+            }
+            break;
         }
         if let Some(visited) = &sc.reach {
             // replays (tracing on) are never pruned, so violations reproduce
